@@ -5,7 +5,7 @@ CFG = dict(
               "C01.exactly_once_counting_any_lateness", "C01.purge_keeps_pending_rows"],
     rule="event-time op sequences (add / deliver with adds in the unlock gap / drain / ticker) on the lattice k*size+{0,1,size-1}+jitter, "
          "out-of-orderness around MAXOUTOFORDERNESS, far-future and timestamp-less rows, bursts of 150 adds (watermark channel full); "
-         "processing-time cases driven through Trigger(); distinct = distinct (cfg, op list)",
+         "processing-time cases driven through Trigger(); distinct = distinct (cfg, op list) Added late: op `reset` (Window.Reset and reuse of the same object; the model restarts from init); free-running SQL-level cases also through the window package API (`winapi`; `reuse` = Start, Reset, Start). Every fifth case runs under WithHighPerformance (`preset high`), for C05/C06/C12/C13/C14/C16/C20 another fifth under WithLowLatency (`preset low`); every seventh case follows a noise prelude (failing statements, malformed rows, panicking sink / function in other instances).",
     assumptions=["pre-1970 timestamps are outside the claim (Go's alignment truncates toward zero): hypothesis OpsOk",
                  "shape / ordering / completeness theorems are for ALLOWEDLATENESS = 0 (late updates are C02); conservation (exactly_once_counting_any_lateness) and the harmlessness of the purge hold for every ALLOWEDLATENESS",
                  "aggregate values of an emitted batch are C03/C04 (same code for every window kind)",
